@@ -61,7 +61,7 @@ theorem amount_number_only_ok (n x : Token) (rest : List Token) (errs : List Par
     (h3 : n.ty = .number) (hx : x.ty ≠ .commodity) (hx' : x.ty ≠ .text) (hq : NumOk num n q) :
     parseAmount (listEnv num cls) ⟨x :: rest, n, errs, dy⟩ =
       (some ⟨q, n.val, emptyCommodity, false, ⟨n.pos, x.pos⟩⟩, ⟨x :: rest, n, errs, dy⟩ |> advance (listEnv num cls)) := by
-  unfold parseAmount
+  unfold parseAmount amountLeadSign amountLeftCommodity amountSecondSign amountNumber amountRightCommodity
   simp only [h3, advance_list, reduceCtorEq, if_false, ne_eq, not_true_eq_false, false_and, listEnv_num,
     hq.1, hq.2, emptyCommodity, if_true, hx, hx', false_or, toRange]
 
@@ -70,7 +70,7 @@ theorem amount_number_commodity_ok (n com x : Token) (rest : List Token) (errs :
     (q : Dec) (h3 : n.ty = .number) (h4 : com.ty = .commodity) (hq : NumOk num n q) :
     parseAmount (listEnv num cls) ⟨com :: x :: rest, n, errs, dy⟩ =
       (some ⟨q, n.val, ⟨com.val, .right, ⟨com.pos, com.stop⟩⟩, false, ⟨n.pos, x.pos⟩⟩, ⟨rest, x, errs, dy⟩) := by
-  unfold parseAmount
+  unfold parseAmount amountLeadSign amountLeftCommodity amountSecondSign amountNumber amountRightCommodity
   simp only [h3, h4, advance_list, reduceCtorEq, if_false, ne_eq, not_true_eq_false, false_and, listEnv_num,
     hq.1, hq.2, emptyCommodity, if_true, true_or, toRange]
 
@@ -79,7 +79,7 @@ theorem amount_commodity_number_ok (com n x : Token) (rest : List Token) (errs :
     (q : Dec) (h4 : com.ty = .commodity) (h3 : n.ty = .number) (hsym : com.val ≠ []) (hq : NumOk num n q) :
     parseAmount (listEnv num cls) ⟨n :: x :: rest, com, errs, dy⟩ =
       (some ⟨q, n.val, ⟨com.val, .left, ⟨com.pos, com.stop⟩⟩, false, ⟨com.pos, x.pos⟩⟩, ⟨rest, x, errs, dy⟩) := by
-  unfold parseAmount
+  unfold parseAmount amountLeadSign amountLeftCommodity amountSecondSign amountNumber amountRightCommodity
   simp only [h3, h4, advance_list, reduceCtorEq, if_false, if_true, ne_eq, not_true_eq_false, false_and,
     listEnv_num, hq.1, hq.2, hsym, Bool.false_and, toRange]
 
@@ -93,7 +93,7 @@ theorem amount_sign_commodity_number_ok (sg com n x : Token) (rest : List Token)
     parseAmount (listEnv num cls) ⟨com :: n :: x :: rest, sg, errs, dy⟩ =
       (some ⟨q, 0x2D :: n.val, ⟨com.val, .left, ⟨com.pos, com.stop⟩⟩, true, ⟨sg.pos, x.pos⟩⟩,
        ⟨rest, x, errs, dy⟩) := by
-  unfold parseAmount
+  unfold parseAmount amountLeadSign amountLeftCommodity amountSecondSign amountNumber amountRightCommodity
   simp only [h1, h3, h4, hv, advance_list, reduceCtorEq, if_false, if_true, ne_eq, not_true_eq_false,
     listEnv_num, hsym, toRange, Bool.true_and, decide_true, Bool.true_or, true_and, hn, Bool.not_false,
     Bool.false_eq_true, not_false_eq_true, hq, hexp, List.cons_ne_self, List.cons.injEq, and_true]
@@ -141,7 +141,7 @@ theorem header_date_text_ok (d tx nl x : Token) (rest : List Token) (errs : List
   unfold parseTransaction
   rw [date_full_ok num cls d tx (nl :: x :: rest) errs dy a b c y m dd h hs ha hb hc]
   simp only
-  unfold txHeader
+  unfold txHeader txDate2 txStatus txCode txComment
   simp only [ht, reduceCtorEq, if_false]
   unfold txDescription
   simp only [ht, if_true, advance_list, hn, reduceCtorEq, if_false]
